@@ -1139,6 +1139,119 @@ func runR101(c *Ctx) {
 			c.bad(key, p.instrPos(rcall), bad)
 		}
 	})
+	r101UnchangedReturn(c, fn, sP)
+}
+
+// r101UnchangedReturn (clause e): the input string itself is returned only after every one of its runes has been
+// looked at. A `return s` that is reachable from an early exit of a loop over s (a break, e.g. at the first
+// non-ASCII byte) without passing the exhaustion of another loop over s hands back strings whose tail was never
+// examined: `Åsa` comes back unchanged because no lower-case ASCII letter precedes its first non-ASCII character.
+func r101UnchangedReturn(c *Ctx, fn *ssa.Function, sP *ssa.Parameter) {
+	p := c.P
+	key := fname(fn) + "|input returned unchanged"
+	var rets []*ssa.Return
+	eachInstr(fn, func(in ssa.Instruction) {
+		if r, ok := in.(*ssa.Return); ok && len(r.Results) == 1 && r.Results[0] == ssa.Value(sP) {
+			rets = append(rets, r)
+		}
+	})
+	if len(rets) == 0 {
+		c.okTrivial(key, p.pos(fn.Pos()), "the parameter itself is never returned as such")
+		return
+	}
+	// loops over s: a range over the string (Range/Next) or a counter compared with len(s)
+	type loopS struct {
+		li   loopInfo
+		exit map[[2]*ssa.BasicBlock]bool // exhaustion edges
+	}
+	var loops []loopS
+	for _, li := range loopsOf(fn) {
+		over := false
+		ex := map[[2]*ssa.BasicBlock]bool{}
+		for _, b := range fn.Blocks {
+			if !inLoop(li, b) || len(b.Instrs) == 0 {
+				continue
+			}
+			iff, ok := b.Instrs[len(b.Instrs)-1].(*ssa.If)
+			if !ok {
+				continue
+			}
+			isBound := false
+			switch t := iff.Cond.(type) {
+			case *ssa.Extract: // ok of Next over a string range
+				if nx, ok := t.Tuple.(*ssa.Next); ok && nx.IsString && t.Index == 0 {
+					isBound = true
+				}
+			case *ssa.BinOp:
+				for _, o := range []ssa.Value{t.X, t.Y} {
+					if call, ok := o.(*ssa.Call); ok && builtinName(call) == "len" {
+						if bt, ok := call.Call.Args[0].Type().Underlying().(*types.Basic); ok && bt.Info()&types.IsString != 0 {
+							isBound = true
+						}
+					}
+				}
+			}
+			if !isBound {
+				continue
+			}
+			over = true
+			for _, sc := range b.Succs {
+				if !inLoop(li, sc) {
+					ex[[2]*ssa.BasicBlock{b, sc}] = true
+				}
+			}
+		}
+		if over {
+			loops = append(loops, loopS{li, ex})
+		}
+	}
+	bad := ""
+	for _, l := range loops {
+		for _, b := range fn.Blocks {
+			if !inLoop(l.li, b) {
+				continue
+			}
+			for _, sc := range b.Succs {
+				if inLoop(l.li, sc) || l.exit[[2]*ssa.BasicBlock{b, sc}] {
+					continue
+				}
+				// an early exit b -> sc: search forward without crossing any exhaustion edge of a loop over s
+				seen := map[*ssa.BasicBlock]bool{}
+				var walk func(x *ssa.BasicBlock) bool
+				walk = func(x *ssa.BasicBlock) bool {
+					if seen[x] {
+						return false
+					}
+					seen[x] = true
+					for _, r := range rets {
+						if r.Block() == x {
+							return true
+						}
+					}
+					for _, nx := range x.Succs {
+						crossed := false
+						for _, l2 := range loops {
+							if l2.exit[[2]*ssa.BasicBlock{x, nx}] {
+								crossed = true
+							}
+						}
+						if !crossed && walk(nx) {
+							return true
+						}
+					}
+					return false
+				}
+				if walk(sc) {
+					bad = p.instrPos(b.Instrs[len(b.Instrs)-1])
+				}
+			}
+		}
+	}
+	if bad != "" {
+		c.bad(key, bad, "the input string is returned unchanged on a path that left a scan of the string early (at "+bad+") and never finished another one: runes behind the exit were not examined, so strings that still need upper-casing come back as they are")
+	} else {
+		c.ok(key, p.instrPos(rets[0]), "the input is returned as it is only after a complete scan found nothing to change")
+	}
 }
 
 // inAnyLoopAfter: b lies in a loop whose header is strictly dominated by `from` (a later loop).
